@@ -313,6 +313,11 @@ func cmdRun(prop, tier, only string, verbose bool, workers int, solverBin string
 			case confirmed > 0:
 				st = "violated (replay confirmed)"
 			case o.Violated > 0:
+				if os.Getenv("VERIF_DEBUG_CE") != "" {
+					for _, ce := range o.CEs {
+						fmt.Printf("  DEBUG-CE %s %s inputs %s note=%q native: %s\n", hr.Name, id, fmtInputs(ce.Inputs), ce.Note, trunc(ce.ReplayOut, 400))
+					}
+				}
 				st = "undischarged: solver model did not reproduce natively (over-approximate stub/domain)"
 				undischarged = append(undischarged, hr.Name+"/"+id+": sat but not reproduced natively")
 			case o.Unknown > 0:
